@@ -644,7 +644,7 @@ func parseDateParts(dateString string, isEndOfRange bool) Date {
 	}
 
 	day := Atoi(parts[dayPos])
-	month := time.Month(months[monthName])
+	month, monthIsKnown := months[monthName]
 	year := Atoi(parts[yearPos])
 
 	// Check the date is valid.
@@ -655,6 +655,16 @@ func parseDateParts(dateString string, isEndOfRange bool) Date {
 			IsEndOfRange: isEndOfRange,
 			Constraint:   DateConstraintFromString(parts[constraintPos]),
 			ParseError:   err,
+		}
+	}
+
+	// A word that is not a month would otherwise be silently dropped and the
+	// date would be understood as a different (less specific) date.
+	if monthName != "" && !monthIsKnown {
+		return Date{
+			IsEndOfRange: isEndOfRange,
+			Constraint:   DateConstraintFromString(parts[constraintPos]),
+			ParseError:   fmt.Errorf("the month is unknown: %s", monthName),
 		}
 	}
 
